@@ -1,4 +1,5 @@
 pub mod c04;
+pub mod c15;
 pub mod mrp_oracles;
 pub mod mrp_props;
 
@@ -29,5 +30,6 @@ pub fn registry() -> Vec<PropertyDef> {
     let mut v = Vec::new();
     v.extend(mrp_props::defs());
     v.extend(c04::defs());
+    v.extend(c15::defs());
     v
 }
